@@ -929,6 +929,14 @@ class PGPMessage(Armorable, PGPObject):
             return self._message
 
     @property
+    def _signed_data(self):
+        # what a signature on this message covers: the octets of a literal data packet as they are, not its decoded text
+        if self.type == 'literal':
+            return bytes(self._message._contents)
+
+        return self.message
+
+    @property
     def signatures(self):
         """A ``set`` containing all key ids (if any) which have signed this message."""
         return list(self._signatures)
@@ -2048,7 +2056,7 @@ class PGPKey(Armorable, ParentRef, PGPObject):
             if subject.type == 'cleartext':
                 sig_type = SignatureType.CanonicalDocument
 
-            subject = subject.message
+            subject = subject._signed_data
 
         sig = PGPSignature.new(sig_type, self.key_algorithm, hash_algo, self.fingerprint.keyid, created=prefs.pop('created', None))
 
@@ -2440,7 +2448,7 @@ class PGPKey(Armorable, ParentRef, PGPObject):
         if signature is None:
             if isinstance(subject, PGPMessage):
                 for sig in _filter_sigs(subject.signatures):
-                    sspairs.append((sig, subject.message))
+                    sspairs.append((sig, subject._signed_data))
 
             if isinstance(subject, (PGPUID, PGPKey)):
                 sspairs += [ (sig, subject) for sig in _filter_sigs(subject.__sig__) ]
